@@ -240,6 +240,11 @@ def attribute(case, v):
 
     prog = case[0][2]
     sig = str(v.extra.get("sig", ""))
+    if v.kind == "process-raised" and sig.startswith("RelationalAlgebraError@_engine.py:_append_binary_to_select"):
+        from vf.core.known import trig_sorted_chain_with_empty_operand
+
+        if trig_sorted_chain_with_empty_operand(prog, case[0][1]):
+            return "D25"
     if v.kind in ("process-raised", "processed-tree-not-executable") and TRIGGERS["D10"](prog):
         if sig.startswith("ColumnError@_sort.py") or sig.startswith("KeyError@_engine.py:convert_column_expression"):
             return "D10"
